@@ -173,8 +173,21 @@ func runC05(r *ev.Run, thorough bool) int {
 					d = depth - 1
 				}
 			}
+			alpha := c05Alphabet()
+			if !thorough && si > 0 {
+				// quick: the other algorithms share the Core's store-carry-forward path with epidemic; for them a
+				// reduced alphabet (one relay, one clock-less bundle, one submission path)
+				var red []nhEvent
+				for _, ev := range alpha {
+					if (ev.Op == "agent") || ((ev.Op == "submit") && ev.B >= 4) || ev.P == "r2" || (ev.Op == "advance" && ev.S == 1801) {
+						continue
+					}
+					red = append(red, ev)
+				}
+				alpha = red
+			}
 			per := nhBFSStats{}
-			nhExplore(r, "C05", "c05", si, root, c05Alphabet(), d, budget, &per)
+			nhExplore(r, "C05", "c05", si, root, alpha, d, budget, &per)
 			r.Add("transitions_"+def.Scenarios[si].Cfg.Algo, int64(per.Transitions))
 			st.States += per.States
 			st.Transitions += per.Transitions
